@@ -128,7 +128,8 @@ CRC_INSTANCES = [
     ("lzma_index_hash_decode", "index_hash.c", "in_pos", ("SEQ_CRC32",)),
     ("index_encode", "index_encoder.c", "out_pos", ("SEQ_CRC32",)),
 ]
-FATAL = ("LZMA_MEM_ERROR", "LZMA_MEMLIMIT_ERROR", "LZMA_FORMAT_ERROR", "LZMA_OPTIONS_ERROR",
+# LZMA_MEMLIMIT_ERROR is not fatal: after lzma_memlimit_set() the same coder continues from where it stopped
+FATAL = ("LZMA_MEM_ERROR", "LZMA_FORMAT_ERROR", "LZMA_OPTIONS_ERROR",
          "LZMA_DATA_ERROR", "LZMA_BUF_ERROR", "LZMA_PROG_ERROR")
 
 
@@ -597,6 +598,46 @@ def check_end_input(ck, prog, rule="C06-ENDIN"):
               key="ENDIN:microlzma_decode:" + mode)
 
 
+def check_strmap(ck, prog, rule="C06-STRMAP"):
+    """lzma_str_from_filters(LZMA_STR_ENCODER) prints the first strfy_encoder entries of a filter's option map, and
+    lzma_str_to_filters() parses any entry of the map: the textual form carries the whole structure (so that encoding
+    from the structure and from its text give the same bytes) only if strfy_encoder covers the whole map; the decoder
+    form prints a prefix of it."""
+    ck.rule(rule, "string_conversion.c: for every filter strfy_encoder equals the length of its option map and "
+            "strfy_decoder <= strfy_encoder")
+    g = prog.globals.get("filter_name_map")
+    if not g:
+        raise AnalysisBroken("filter_name_map not found")
+    n = ex.strip(g[0].get("init"))
+    if n is None or n.get("k") != "init":
+        raise AnalysisBroken("filter_name_map has no initialiser list")
+    cnt = 0
+    for e in n["e"]:
+        e = ex.strip(e)
+        if e is None or e.get("k") != "init" or not e.get("fields"):
+            continue
+        ent = dict(zip(e["fields"], e["e"]))
+        nm = ex.show(ex.strip(ent["name"])).strip('"')
+        om = ex.strip(ent["optmap"])
+        omn = om.get("n") if om is not None and om.get("k") == "var" else None
+        og = prog.globals.get(omn) if omn else None
+        if not og:
+            raise AnalysisBroken("filter_name_map[%s]: option map not resolved" % nm)
+        oi = ex.strip(og[0].get("init"))
+        size = len(oi["e"]) if oi is not None and oi.get("k") == "init" else None
+        se, sd = ex.const_val(ent["strfy_encoder"]), ex.const_val(ent["strfy_decoder"])
+        cnt += 1
+        ok = size is not None and se == size and sd is not None and sd <= se
+        ck.ob(rule, nm, ok, "src/liblzma/common/string_conversion.c:%s" % (ex.line(e) or 0),
+              "%s: %s has %s entries, strfy_encoder=%s, strfy_decoder=%s" % (nm, omn, size, se, sd) if ok else
+              "filter_name_map[\"%s\"]: the option map %s has %s entries but strfy_encoder is %s (strfy_decoder %s): "
+              "lzma_str_from_filters(LZMA_STR_ENCODER) leaves out the last option(s), so a chain converted to text and parsed "
+              "back differs from the original structure and encodes to different bytes" % (nm, omn, size, se, sd),
+              key="STRMAP:%s" % nm)
+    ck.floor(rule, 10)
+    return cnt
+
+
 def check_encreset(ck, prog, rule):
     """The price tables of the LZMA encoder are caches of the probabilities; they are recomputed when the matching
     price count reaches a threshold.  A state reset re-initialises the probabilities, so it must also make the
@@ -667,6 +708,7 @@ def run(ck):
     ], rule="C06-PROV", floor=2)
     check_encreset(ck, prog, "C06-ENCRESET")
     check_end_input(ck, prog)
+    check_strmap(ck, prog)
     from . import C01 as _C01
     _C01.check_emit_state(ck, prog, "C06-EMITSTATE")
     ck.rule("C06-APPLY", "an amount measured in this call (bytes used, padding found) is applied to the persistent member "
